@@ -1,6 +1,6 @@
 """Loader for the JSON facts written by sa/extract, and the generic analyses
 (A-dom, A-path, A-lock, A-eff) the rule modules use.  Standard library only."""
-import json, re, os, itertools
+import json, os, re, itertools
 from collections import defaultdict, deque
 
 
@@ -178,6 +178,9 @@ class Func:
         self._dom = None
         self._pdom = None
         self._loop_assigned = None
+        self.validation_exits = []
+        if not os.environ.get('VERIF_NO_VALIDATION_PRUNE'):
+            self._prune_validation_exits()
 
     # -- locations -------------------------------------------------------------------
     def loc(self, nid):
@@ -323,6 +326,13 @@ class Func:
                     bl.append(ev)
             self._bevents[bid] = bl
             evs.extend(bl)
+        if getattr(self, 'validation_exits', None):
+            # blocks only reachable through a pruned argument-validation edge contribute no events
+            live = self.reachable_blocks()
+            evs = [e for e in evs if e.block in live]
+            for bid in self._bevents:
+                if bid not in live:
+                    self._bevents[bid] = []
         self._events = evs
         return evs
 
@@ -349,6 +359,72 @@ class Func:
 
     def loads(self, s=None):
         return [e for e in self.events() if e.kind == 'load' and (s is None or e.e.s == s)]
+
+    # -- argument-validation exits ----------------------------------------------------------
+    def _prune_validation_exits(self):
+        """`if (NULL == <pointer parameter>) return <constant>;` at the top of a function, before any work, is an
+        argument validation: the path it opens carries no obligation of any property (the quantifier domains are
+        the valid uses of the API).  Such edges are removed from the CFG so that all-paths rules, dominance and
+        post-dominance see the function as if called with valid arguments; they are listed in validation_exits."""
+        ptr_params = {p_['n'] for p_ in self.params if p_.get('n') and (p_.get('ty') or '').rstrip().endswith('*')}
+        if not ptr_params:
+            return
+        b = self.entry; seen = set()
+        while b not in seen:
+            seen.add(b)
+            work = False
+            for ev in self.block_events(b):
+                if ev.kind == 'call':
+                    work = True
+                elif ev.kind == 'store':
+                    if not (ev.lhs.k == 'ref' and ev.lhs.dk in ('var',)) or (ev.rhs is not None and any(x.k == 'call' for x in ev.rhs.walk())) or ev.op not in ('=',):
+                        work = True
+                elif ev.kind == 'ret':
+                    work = True
+            if work:
+                return
+            ss = self.succs(b)
+            if len(ss) == 1:
+                b = ss[0][0]; continue
+            if len(ss) != 2 or self.term_kind(b) == 'switch':
+                return
+            c = self.cond(b)
+            if c is None:
+                return
+            atom, pol = cond_atom(c)
+            if not (atom.k == 'ref' and atom.s in ptr_params and atom.dk == 'parm'):
+                return
+            null_lab = not pol
+            tgt = [s_ for s_, lab in ss if lab is null_lab]; oth = [s_ for s_, lab in ss if lab is not null_lab]
+            if len(tgt) != 1 or len(oth) != 1:
+                return
+            if self._trivial_return(tgt[0]):
+                bl = self.blocks[b]
+                bl['succs'] = [None if x == tgt[0] else x for x in bl['succs']]
+                self.validation_exits.append((b, tgt[0], atom.s))
+                self._events = None; self._preds = None; self._dom = None; self._pdom = None
+                b = oth[0]
+                seen.discard(b)
+                continue
+            if self._trivial_return(oth[0]):
+                return
+            # `NULL == p || NULL == q`: the null edge leads to the shared return through the next disjunct's block
+            return
+
+    def _trivial_return(self, bid):
+        hops = 0
+        while hops < 3:
+            evs = [e for e in self.block_events(bid) if e.kind != 'load']
+            if len(evs) == 1 and evs[0].kind == 'ret' and (evs[0].e is None or evs[0].e.cv is not None or evs[0].e.k in ('int',) or
+                                                         (evs[0].e.k == 'un' and evs[0].e.op == '-' and evs[0].e.ch[0].k == 'int')):
+                return True
+            if evs:
+                return False
+            ss = self.succs(bid)
+            if len(ss) != 1:
+                return False
+            bid = ss[0][0]; hops += 1
+        return False
 
     # -- CFG -------------------------------------------------------------------------
     def succs(self, bid):
@@ -506,7 +582,10 @@ class Func:
         """Branch outcomes every path from entry to `point` has taken:
         [(atom E, truth, block)] with !/==0 folded into truth."""
         out = []
+        pruned = {b for b, _, _ in getattr(self, 'validation_exits', ())}
         for bid in self.blocks:
+            if bid in pruned:
+                continue        # an argument validation whose exit was pruned is no longer a branch
             c = self.cond(bid)
             if c is None:
                 continue
